@@ -17,6 +17,7 @@ import (
 	"flag"
 	"fmt"
 	mrand "math/rand"
+	"net"
 	"net/netip"
 	"os"
 	"os/exec"
@@ -27,6 +28,9 @@ import (
 	"sync"
 	"time"
 
+	"golang.zx2c4.com/wireguard/conn"
+	"golang.zx2c4.com/wireguard/device"
+
 	"wgv/cosim"
 	"wgv/ref"
 	"wgv/sim"
@@ -35,7 +39,7 @@ import (
 // ---------------------------------------------------------------- plan
 
 type Plan struct {
-	Op         string `json:"op"` // load, shiftsecret, shiftpeercookie, shifths, tun, msg
+	Op         string `json:"op"` // load, loadfor (D ms), sleep (D ms), shiftsecret, shiftpeercookie, shifths, tun, msg
 	On         bool   `json:"on,omitempty"`
 	D          int    `json:"d,omitempty"`    // seconds
 	Peer       int    `json:"peer,omitempty"` // 0,1,2 = configured peers; 9 = stranger
@@ -65,6 +69,7 @@ type Case struct {
 	Gallina string    `json:"-"`
 	Slow    int       `json:"slow,omitempty"`
 	Natural *Natural  `json:"natural,omitempty"`
+	Loop    *Loopback `json:"loopback,omitempty"`
 }
 
 type Natural struct {
@@ -73,6 +78,15 @@ type Natural struct {
 	Replies int    `json:"replies"`
 	Queued  int    `json:"queued"`
 	Window  string `json:"window,omitempty"` // the sliding under-load period: ok, skipped (why), or the violation
+	After   string `json:"after,omitempty"`  // behaviour once the load episode is over for more than 1 s
+}
+
+// Loopback is the verdict of the pass over the real conn.StdNetBind (judged in Go).
+type Loopback struct {
+	Status string   `json:"status"` // ok, skipped, violation
+	Detail string   `json:"detail"`
+	Checks int      `json:"checks"`
+	Log    []string `json:"log,omitempty"`
 }
 
 const baseNs = int64(1_000_000_000_000)
@@ -783,6 +797,22 @@ func (r *run) exec(pl Plan) (rec StepRec, settled bool) {
 		obs, txt, chg := r.observe(out, nil, &body, &hid)
 		rec.Event = fmt.Sprintf("FL %d %d %v", t, int64(600e9), pl.On)
 		rec.Obs, rec.Outs, rec.Chg, settled = obs, txt, chg, out.Settled
+	case "loadfor":
+		// VerifForceUnderLoad for D milliseconds
+		t := r.now()
+		r.w.Dev.VerifForceUnderLoad(time.Duration(pl.D) * time.Millisecond)
+		r.loadOn = true
+		out := r.w.Take()
+		obs, txt, chg := r.observe(out, nil, &body, &hid)
+		rec.Event = fmt.Sprintf("FL %d %d true", t, int64(pl.D)*1e6)
+		rec.Obs, rec.Outs, rec.Chg, settled = obs, txt, chg, out.Settled
+	case "sleep":
+		time.Sleep(time.Duration(pl.D) * time.Millisecond)
+		r.loadOn = false
+		out := r.w.Take()
+		obs, txt, chg := r.observe(out, nil, &body, &hid)
+		rec.Event = "SS 0"
+		rec.Obs, rec.Outs, rec.Chg, settled = obs, txt, chg, out.Settled
 	case "shiftsecret":
 		r.w.Dev.VerifShiftCookieSecret(d)
 		out := r.w.Take()
@@ -1192,6 +1222,14 @@ func genMix(r *mrand.Rand) []Plan {
 	return p
 }
 
+// a hook-forced load episode of 300 ms, then 600 ms of nothing: the device must be an ordinary device again
+func forcedLoadExpires() Case {
+	p := []Plan{{Op: "loadfor", D: 300}, msg("init", 0, 0, "ok", "zero", "good"), {Op: "sleep", D: 600},
+		msg("init", 1, 4, "ok", "zero", "corrupt"), msg("init", 9, 4, "ok", "zero", "good"),
+		{Op: "shifths", Peer: 0, D: 1}, msg("init", 0, 0, "ok", "junk", "resend"), msg("transport", 0, 0, "", "", "good")}
+	return runCase("fixed-forced-load-expires", p)
+}
+
 func fixedCases() []Case {
 	// every type x {valid, invalid MAC1} x {no load, load}, and all sizes around the four fixed sizes
 	var cs []Case
@@ -1414,69 +1452,120 @@ func natural() *Natural {
 	nat.Status = "ok"
 	nat.Detail = fmt.Sprintf("queue %d, %d cookie replies, %d responses%s", h, replies, responses, okRT)
 
-	// The under-load period lasts UnderLoadAfterTime (1 s) after the LAST time the queue was seen at least an
-	// eighth full.  First detection was before tS1.  A second burst 0.6 s later is seen over the threshold
-	// again (workers slowed to 3 ms per send), so the period must run until at least tBurst + 1 s: a valid
-	// initiation WITHOUT MAC2 at tS1 + 1.25 s (0.65 s after the burst) must draw a cookie reply, not a response.
-	tS1 := time.Now()
-	w.Bind.SendGate = func(bufs [][]byte, to netip.AddrPort) { time.Sleep(3 * time.Millisecond) }
-	var ds2 []sim.Dgram
-	for i := 0; i < 500; i++ {
-		p := peers[workers+i%4]
-		ds2 = append(ds2, sim.Dgram{From: netip.AddrPortFrom(p.Addr.Addr(), uint16(5000+i)), Data: mk(p).Msg})
-	}
-	// the burst must be over well before first detection + 1 s (else a deadline anchored to the FIRST detection
-	// would simply expire during the burst and be renewed), and the probe must come after that instant
-	time.Sleep(time.Until(tS1.Add(600 * time.Millisecond)))
-	tBurst := time.Now()
-	for i := 0; i < len(ds2); i += 125 {
-		w.Bind.Inject(ds2[i : i+125]...)
-	}
-	peak := 0
-	for time.Since(tBurst) < 60*time.Millisecond {
-		if _, _, hq := w.Dev.VerifQueueLens(); hq > peak {
-			peak = hq
+	var tQuiet time.Time // no detection of load can have happened after this instant
+	func() {
+		// The under-load period lasts UnderLoadAfterTime (1 s) after the LAST time the queue was seen at least an
+		// eighth full.  First detection was before tS1.  A second burst 0.6 s later is seen over the threshold
+		// again (workers slowed to 3 ms per send), so the period must run until at least tBurst + 1 s: a valid
+		// initiation WITHOUT MAC2 at tS1 + 1.25 s (0.65 s after the burst) must draw a cookie reply, not a response.
+		tS1 := time.Now()
+		w.Bind.SendGate = func(bufs [][]byte, to netip.AddrPort) { time.Sleep(3 * time.Millisecond) }
+		var ds2 []sim.Dgram
+		for i := 0; i < 500; i++ {
+			p := peers[workers+i%4]
+			ds2 = append(ds2, sim.Dgram{From: netip.AddrPortFrom(p.Addr.Addr(), uint16(5000+i)), Data: mk(p).Msg})
 		}
-		time.Sleep(100 * time.Microsecond)
-	}
-	if !w.Settle() {
-		nat.Window = "skipped: second burst did not settle"
+		// the burst must be over well before first detection + 1 s (else a deadline anchored to the FIRST detection
+		// would simply expire during the burst and be renewed), and the probe must come after that instant
+		time.Sleep(time.Until(tS1.Add(600 * time.Millisecond)))
+		tBurst := time.Now()
+		for i := 0; i < len(ds2); i += 125 {
+			w.Bind.Inject(ds2[i : i+125]...)
+		}
+		peak := 0
+		for time.Since(tBurst) < 60*time.Millisecond {
+			if _, _, hq := w.Dev.VerifQueueLens(); hq > peak {
+				peak = hq
+			}
+			time.Sleep(100 * time.Microsecond)
+		}
+		if !w.Settle() {
+			nat.Window = "skipped: second burst did not settle"
+			return
+		}
+		w.Bind.SendGate = nil
+		w.Bind.TakeSent()
+		tQuiet = time.Now()
+		if peak < 160 {
+			nat.Window = fmt.Sprintf("skipped: second burst reached only %d queued", peak)
+			return
+		}
+		time.Sleep(time.Until(tS1.Add(1250 * time.Millisecond)))
+		pp := peers[0]
+		probeFrom := netip.AddrPortFrom(pp.Addr.Addr(), 6001)
+		probe := mk(pp)
+		tProbe := time.Now()
+		out := w.Inject(probeFrom, probe.Msg)
+		tAfter := time.Now()
+		if tAfter.Sub(tBurst) > 950*time.Millisecond {
+			nat.Window = fmt.Sprintf("skipped: probe finished %v after the burst", tAfter.Sub(tBurst))
+			return
+		}
+		gotCookie, gotResp := false, false
+		for _, sd := range out.Sent {
+			if len(sd.Data) == ref.CookieSize && sd.Data[0] == ref.TypeCookie {
+				gotCookie = true
+			}
+			if len(sd.Data) == ref.ResponseSize && sd.Data[0] == ref.TypeResponse {
+				gotResp = true
+			}
+		}
+		if gotResp || !gotCookie {
+			nat.Status = "violation"
+			nat.Window = fmt.Sprintf("%v after the handshake queue was last seen over the threshold (peak %d) and %v after the load was first seen, an initiation WITHOUT MAC2 was answered with response=%v cookie=%v: the device must stay under load for %v after the LAST detection",
+				tProbe.Sub(tBurst).Round(time.Millisecond), peak, tProbe.Sub(tS1).Round(time.Millisecond), gotResp, gotCookie, time.Second)
+			nat.Detail = nat.Window
+			return
+		}
+		nat.Window = fmt.Sprintf("ok: cookie reply %v after the last burst (peak %d), %v after first detection", tProbe.Sub(tBurst).Round(time.Millisecond), peak, tProbe.Sub(tS1).Round(time.Millisecond))
+	}()
+	if nat.Status == "violation" {
 		return nat
 	}
-	w.Bind.SendGate = nil
-	w.Bind.TakeSent()
-	if peak < 160 {
-		nat.Window = fmt.Sprintf("skipped: second burst reached only %d queued", peak)
-		return nat
+	// Once the load is over for more than UnderLoadAfterTime the device is an ordinary device again: a valid
+	// initiation WITHOUT MAC2 is answered with a response (no cookie reply), one whose payload fails is met with silence.
+	if tQuiet.IsZero() {
+		tQuiet = time.Now()
 	}
-	time.Sleep(time.Until(tS1.Add(1250 * time.Millisecond)))
-	pp := peers[0]
-	probeFrom := netip.AddrPortFrom(pp.Addr.Addr(), 6001)
-	probe := mk(pp)
-	tProbe := time.Now()
-	out := w.Inject(probeFrom, probe.Msg)
-	tAfter := time.Now()
-	if tAfter.Sub(tBurst) > 950*time.Millisecond {
-		nat.Window = fmt.Sprintf("skipped: probe finished %v after the burst", tAfter.Sub(tBurst))
-		return nat
-	}
-	gotCookie, gotResp := false, false
-	for _, sd := range out.Sent {
-		if len(sd.Data) == ref.CookieSize && sd.Data[0] == ref.TypeCookie {
-			gotCookie = true
+	time.Sleep(time.Until(tQuiet.Add(1300 * time.Millisecond)))
+	bp := peers[1]
+	badInit := mk(bp)
+	badMsg := append([]byte{}, badInit.Msg...)
+	badMsg[40+11] ^= 2
+	badMsg = ref.AppendMacs(badMsg[:116], w.DevPub, nil)
+	o1 := w.Inject(netip.AddrPortFrom(bp.Addr.Addr(), 6101), badMsg)
+	gp := peers[2]
+	goodFrom := netip.AddrPortFrom(gp.Addr.Addr(), 6102)
+	o2 := w.Inject(goodFrom, mk(gp).Msg)
+	kinds := func(o cosim.Out) (resp, cookie, other int) {
+		for _, sd := range o.Sent {
+			switch {
+			case len(sd.Data) == ref.ResponseSize && sd.Data[0] == ref.TypeResponse:
+				resp++
+			case len(sd.Data) == ref.CookieSize && sd.Data[0] == ref.TypeCookie:
+				cookie++
+			default:
+				other++
+			}
 		}
-		if len(sd.Data) == ref.ResponseSize && sd.Data[0] == ref.TypeResponse {
-			gotResp = true
-		}
+		return
 	}
-	if gotResp || !gotCookie {
+	r1, c1, x1 := kinds(o1)
+	r2, c2, _ := kinds(o2)
+	since := time.Since(tQuiet).Round(time.Millisecond)
+	if r1+c1+x1 != 0 {
 		nat.Status = "violation"
-		nat.Window = fmt.Sprintf("%v after the handshake queue was last seen over the threshold (peak %d) and %v after the load was first seen, an initiation WITHOUT MAC2 was answered with response=%v cookie=%v: the device must stay under load for %v after the LAST detection",
-			tProbe.Sub(tBurst).Round(time.Millisecond), peak, tProbe.Sub(tS1).Round(time.Millisecond), gotResp, gotCookie, time.Second)
-		nat.Detail = nat.Window
+		nat.After = fmt.Sprintf("%v after the load episode ended, an initiation with valid MAC1 but corrupt payload drew %d responses, %d cookie replies, %d other datagrams (want silence: the device is not under load)", since, r1, c1, x1)
+		nat.Detail = nat.After
 		return nat
 	}
-	nat.Window = fmt.Sprintf("ok: cookie reply %v after the last burst (peak %d), %v after first detection", tProbe.Sub(tBurst).Round(time.Millisecond), peak, tProbe.Sub(tS1).Round(time.Millisecond))
+	if r2 != 1 || c2 != 0 {
+		nat.Status = "violation"
+		nat.After = fmt.Sprintf("%v after the load episode ended, a valid initiation without MAC2 drew %d responses and %d cookie replies (want one response: the device is not under load)", since, r2, c2)
+		nat.Detail = nat.After
+		return nat
+	}
+	nat.After = fmt.Sprintf("ok: %v after the episode a valid initiation without MAC2 is answered, a corrupt one is met with silence", since)
 	return nat
 }
 
@@ -1497,6 +1586,158 @@ func naturalAsync() func() *Natural {
 		}
 		return &n
 	}
+}
+
+// ---------------------------------------------------------------- loopback pass over the real StdNetBind
+
+// The cookie is bound to what the BIND's endpoint gives as DstToBytes; sim.Bind has its own.  This pass puts the
+// device on conn.NewStdNetBind() over 127.0.0.1 and ::1 with plain UDP sockets as remote parties, forces load,
+// lets ref obtain a cookie on socket A (which must be Mac(secret, ip and port of A)), and sends a fresh initiation
+// with MAC2 under that cookie from socket B (same address, other port): it must draw another cookie reply, not
+// a response.  Control: the same from socket A is answered.  Skipped (never a violation) without loopback UDP.
+func loopback() *Loopback {
+	lb := &Loopback{Status: "skipped"}
+	done := 0
+	for _, host := range []string{"127.0.0.1", "::1"} {
+		st, detail, checks := loopbackFamily(host)
+		lb.Checks += checks
+		switch st {
+		case "violation":
+			lb.Status, lb.Detail = "violation", host+": "+detail
+			return lb
+		case "ok":
+			done++
+			lb.Log = append(lb.Log, host+": ok")
+		default:
+			lb.Log = append(lb.Log, host+": skipped: "+detail)
+		}
+	}
+	if done > 0 {
+		lb.Status = "ok"
+		lb.Detail = fmt.Sprintf("%d address families, %d checks", done, lb.Checks)
+	} else {
+		lb.Detail = "no loopback UDP sockets"
+	}
+	return lb
+}
+
+func udpSock(host string) (*net.UDPConn, netip.AddrPort, error) {
+	c, err := net.ListenUDP("udp", &net.UDPAddr{IP: net.ParseIP(host), Port: 0})
+	if err != nil {
+		return nil, netip.AddrPort{}, err
+	}
+	ap := c.LocalAddr().(*net.UDPAddr).AddrPort()
+	return c, netip.AddrPortFrom(ap.Addr().Unmap(), ap.Port()), nil
+}
+
+func readOne(c *net.UDPConn, d time.Duration) []byte {
+	buf := make([]byte, 2048)
+	c.SetReadDeadline(time.Now().Add(d))
+	n, _, err := c.ReadFromUDP(buf)
+	if err != nil {
+		return nil
+	}
+	return buf[:n]
+}
+
+func loopbackFamily(host string) (status, detail string, checks int) {
+	sockA, addrA, err := udpSock(host)
+	if err != nil {
+		return "skipped", err.Error(), 0
+	}
+	defer sockA.Close()
+	sockB, addrB, err := udpSock(host)
+	if err != nil {
+		return "skipped", err.Error(), 0
+	}
+	defer sockB.Close()
+	dev := device.NewDevice(sim.NewTun(1, 1420), conn.NewStdNetBind(), device.NewLogger(device.LogLevelSilent, ""))
+	defer dev.Close()
+	devPriv := ref.NewPrivate()
+	devPub := ref.PubOf(devPriv)
+	p := cosim.NewPeer("L", "", "10.0.0.2/32")
+	cfg := fmt.Sprintf("private_key=%s\nlisten_port=0\npublic_key=%s\nallowed_ip=10.0.0.2/32\n", hex.EncodeToString(devPriv[:]), hex.EncodeToString(p.Pub[:]))
+	if err := dev.IpcSet(cfg); err != nil {
+		return "skipped", "IpcSet: " + err.Error(), 0
+	}
+	if err := dev.Up(); err != nil {
+		return "skipped", "Up: " + err.Error(), 0
+	}
+	port := 0
+	get, _ := dev.IpcGet()
+	for _, l := range strings.Split(get, "\n") {
+		if strings.HasPrefix(l, "listen_port=") {
+			fmt.Sscanf(l, "listen_port=%d", &port)
+		}
+	}
+	if port == 0 {
+		return "skipped", "no listen port", 0
+	}
+	devUDP := &net.UDPAddr{IP: net.ParseIP(host), Port: port}
+	ts := uint64(time.Now().UnixNano())
+	mk := func() *ref.InitiatorState {
+		ts += 1e9
+		p.NextIdx++
+		return ref.CreateInitiation(p.Priv, ref.NewPrivate(), devPub, p.Psk, p.NextIdx, ref.Tai64nRaw(0x400000000000000a+ts/1e9, uint32(ts%1e9)))
+	}
+	// not under load: plain handshake works over this path at all (else skip)
+	st0 := mk()
+	sockA.WriteToUDP(st0.Msg, devUDP)
+	if r := readOne(sockA, 700*time.Millisecond); r == nil || len(r) != ref.ResponseSize {
+		return "skipped", "no handshake over loopback", 0
+	}
+	dev.VerifForceUnderLoad(600 * time.Second)
+	// 1. no MAC2 from A: cookie reply, bound to A's address AND port
+	st1 := mk()
+	sockA.WriteToUDP(st1.Msg, devUDP)
+	r1 := readOne(sockA, 700*time.Millisecond)
+	checks++
+	if r1 == nil || len(r1) != ref.CookieSize || r1[0] != ref.TypeCookie {
+		return "violation", fmt.Sprintf("under load an initiation without MAC2 from %s drew %d bytes, want a cookie reply", addrA, len(r1)), checks
+	}
+	_, cookie, err := ref.OpenCookieReply(r1, devPub, st1.Mac1)
+	if err != nil {
+		return "violation", "cookie reply does not open with the device key and the MAC1 of the initiation", checks
+	}
+	sec := dev.VerifCookieChecker()
+	bound := false
+	for _, ap := range []netip.AddrPort{addrA, netip.AddrPortFrom(netip.AddrFrom16(addrA.Addr().As16()), addrA.Port())} {
+		m := ref.Mac(sec.Secret[:], addrBytes(ap))
+		if bytes.Equal(m[:], cookie) {
+			bound = true
+		}
+	}
+	checks++
+	if !bound {
+		return "violation", fmt.Sprintf("the cookie issued to %s is not Mac(secret, address and port of the source)", addrA), checks
+	}
+	// 2. MAC2 under A's cookie, sent from B (same address, other port): another cookie reply, no response
+	st2 := mk()
+	sockB.WriteToUDP(ref.WithCookie(st2.Msg, devPub, cookie), devUDP)
+	r2 := readOne(sockB, 700*time.Millisecond)
+	checks++
+	if r2 != nil && len(r2) == ref.ResponseSize && r2[0] == ref.TypeResponse {
+		return "violation", fmt.Sprintf("under load an initiation from %s carrying MAC2 under the cookie issued to %s (other port) was processed (response sent)", addrB, addrA), checks
+	}
+	if r2 == nil || len(r2) != ref.CookieSize || r2[0] != ref.TypeCookie {
+		return "violation", fmt.Sprintf("under load an initiation from %s with a cookie of %s drew %d bytes, want a cookie reply", addrB, addrA, len(r2)), checks
+	}
+	if stray := readOne(sockA, 5*time.Millisecond); stray != nil {
+		return "violation", "a datagram went to the cookie's owner although the message came from another port", checks
+	}
+	// 3. control: the same from A is processed (keep clear of the 20 ms flood gap after the first handshake)
+	dev.VerifShiftHandshakeTimes(p.NoisePub(), time.Second)
+	st3 := mk()
+	sockA.WriteToUDP(ref.WithCookie(st3.Msg, devPub, cookie), devUDP)
+	r3 := readOne(sockA, 700*time.Millisecond)
+	checks++
+	if r3 == nil || len(r3) != ref.ResponseSize || r3[0] != ref.TypeResponse {
+		return "violation", fmt.Sprintf("under load an initiation from %s with MAC2 under the cookie issued to it drew %d bytes, want a response", addrA, len(r3)), checks
+	}
+	if _, err := st3.ConsumeResponse(r3); err != nil {
+		return "violation", "response after the cookie round trip does not complete the handshake", checks
+	}
+	return "ok", "", checks
 }
 
 // ---------------------------------------------------------------- output
@@ -1522,6 +1763,7 @@ func main() {
 	replayIn := flag.String("replay", "", "JSON file with cases (plans) to run")
 	corpus := flag.String("corpus", "", "directory of corpus JSON cases to run first")
 	noNat := flag.Bool("nonatural", false, "skip the natural-load scenario")
+	noLoop := flag.Bool("noloopback", false, "skip the pass over the real StdNetBind on loopback")
 	natOnly := flag.Bool("naturalonly", false, "run only the natural-load scenario and print its verdict as JSON")
 	flag.Parse()
 	if *natOnly {
@@ -1545,6 +1787,10 @@ func main() {
 			panic(err)
 		}
 		for _, c := range in {
+			if c.Loop != nil {
+				cases = append(cases, Case{Gen: "loopback-stdnetbind", Loop: loopback(), Gallina: fmt.Sprintf("mk 1 %d [] []", baseNs)})
+				continue
+			}
 			if c.Natural != nil {
 				nc := Case{Gen: "natural-load", Natural: natural(), Gallina: fmt.Sprintf("mk 1 %d [] []", baseNs)}
 				cases = append(cases, nc)
@@ -1572,6 +1818,9 @@ func main() {
 				}
 			}
 		}
+		if !*noLoop {
+			cases = append(cases, Case{Gen: "loopback-stdnetbind", Loop: loopback(), Gallina: fmt.Sprintf("mk 1 %d [] []", baseNs)})
+		}
 		var collectNat func() *Natural
 		natIdx := -1
 		if !*noNat {
@@ -1581,6 +1830,7 @@ func main() {
 			cases = append(cases, Case{Gen: "natural-load", Gallina: fmt.Sprintf("mk 1 %d [] []", baseNs)})
 		}
 		cases = append(cases, fixedCases()...)
+		cases = append(cases, forcedLoadExpires())
 		r := mrand.New(mrand.NewSource(*seed))
 		gens := []struct {
 			name string
